@@ -8,6 +8,7 @@ mod rng;
 mod scen;
 mod sim;
 mod sys;
+mod world;
 #[cfg(feature = "xen")]
 mod xendev;
 
